@@ -1,4 +1,5 @@
 import RadicaleProofs.Conc
+import RadicaleProofs.TmpNames
 /-
   C09 — concurrent requests behave as if executed one at a time.
 
@@ -100,5 +101,41 @@ example : ∃ c : Config Bool Nat, Reach f6 false c ∧ isRunning (c.st 0) = tru
     · simp [h, isRunning] at hj
   · simp [upd, isRunning]
   · simp [upd, isRunning]
+
+/-! ### writes inside a shared window (model RadicaleModel/TmpNames.lean): readers write too — `sync()` its token and history files, `_get`
+    its cache entries — side by side under the shared lock.  They behave as if done one at a time because every `_atomic_write` has
+    a temporary name of its own (seed C09j gave all writes of one process and directory the same one). -/
+section SharedWindowWrites
+open Radicale.TmpNames
+
+/-- any number of writers, any interleaving of their `create` / `rename` calls in which each writer alternates the two: with pairwise
+    different temporary names, none of which is the target, no call fails and every writer in the middle of a write finds its own
+    file with its own content -/
+theorem concurrent_atomic_writes_never_fail (t c : Nat → Nat) (g : Nat) (ht : ∀ i j, t i = t j → i = j) (hg : ∀ i, t i ≠ g)
+    (fs0 : FS) (es : List Ev) (hw : WellFormed es) :
+    ∃ fs, runRev t c g fs0 es = some fs ∧ ∀ i, pending i es = true → fs (t i) = some (c i) :=
+  private_names_never_fail t c g ht hg fs0 es hw
+
+/-- … and what ends up under the target name is what the writer that renamed last wrote -/
+theorem last_rename_wins (t c : Nat → Nat) (g : Nat) (ht : ∀ i j, t i = t j → i = j) (hg : ∀ i, t i ≠ g)
+    (fs0 : FS) (es : List Ev) (j : Nat) (hw : WellFormed (.rename j :: es)) :
+    ∃ fs, runRev t c g fs0 (.rename j :: es) = some fs ∧ fs g = some (c j) := by
+  obtain ⟨hp, hw'⟩ := hw
+  obtain ⟨fs, hr, hinv⟩ := private_names_never_fail t c g ht hg fs0 es hw'
+  have hj := hinv j hp
+  refine ⟨fun n => if n = g then some (c j) else if n = t j then none else fs n, ?_, by simp⟩
+  simp only [runRev, List.reverse_cons, run_append]
+  simp only [runRev] at hr
+  simp [hr, run, step, hj]
+
+/-- the hypothesis is what the code provides and what seed C09j took away: with ONE temporary name for two writers the well-formed
+    schedule create₀ create₁ rename₀ rename₁ ends in a failing `os.replace` (the 500 of the seed's demonstration) -/
+theorem shared_temporary_name_fails :
+    WellFormed [.rename 1, .rename 0, .create 1, .create 0] ∧
+    (runRev (fun _ => 7) (fun i => 100 + i) 0 (fun _ => none) [.rename 1, .rename 0, .create 1, .create 0]).isNone = true ∧
+    (runRev (fun i => 7 + i) (fun i => 100 + i) 0 (fun _ => none) [.rename 1, .rename 0, .create 1, .create 0]).isSome = true := by
+  refine ⟨by simp [WellFormed, pending], by decide, by decide⟩
+
+end SharedWindowWrites
 
 end C09
